@@ -1025,6 +1025,9 @@ pub fn run(run: &Run) {
     println!("  [phase] store-seam schedules done at {:.1}s", run.elapsed());
     // the one lock-protected structure that validation threads share (the DOSC inflator table): every interleaving, by loom
     crate::loomrun::inflator_interleavings(run, "C03");
+    // ... and apply_tx_batch itself, compiled against loom-backed rayon and locks: every parallel site, every cut, every interleaving
+    crate::loomrun::stf_interleavings(run, "C03", &["rivals", "faucet-twice", "chain", "chain-reversed", "shared-second-input", "independent", "faucet-spends-and-rival", "rivals-around-bystander", "two-mints", "two-mints-reversed"]);
+    println!("  [phase] loom labs done at {:.1}s", run.elapsed());
     repeatability_sampling(run, thorough);
     println!("  [phase] schedule sampling done at {:.1}s", run.elapsed());
     run.set("sets_checked", json!(total_sets));
